@@ -523,4 +523,121 @@ spec fn ctx_ok<'a>(c: ImplContext<'a>) -> bool { (c.fallible ==> c.struct_attr.e
     |mut ctx: ImplContext| -> (r: TokenStream) requires ctx_ok(ctx) ensures r@ == spec_impl(input, ctx)
 //@end
 
+
+// ---------------------------------------------------------------- the entry point: parse, validate, emit (C04, C16)
+// syn's input AST, as far as `derive` and the two `from_syn` look at it (ASSUMED shapes of the dependency's types)
+pub struct Attribute { _p: ::core::marker::PhantomData<()> }
+pub struct SynVariant { _p: ::core::marker::PhantomData<()> }
+pub struct FieldsNamed { _p: ::core::marker::PhantomData<()> }
+pub struct FieldsUnnamed { _p: ::core::marker::PhantomData<()> }
+pub struct DataUnion { _p: ::core::marker::PhantomData<()> }
+pub enum Fields { Named(FieldsNamed), Unnamed(FieldsUnnamed), Unit }
+pub struct DataStruct { pub fields: Fields }
+pub struct DataEnum { pub variants: Punctuated<SynVariant, Comma> }
+pub enum Data { Struct(DataStruct), Enum(DataEnum), Union(DataUnion) }
+pub struct DeriveInput { pub attrs: Vec<Attribute>, pub ident: Ident, pub generics: Generics, pub data: Data }
+
+impl Error {
+    #[verifier::external_body]
+    pub fn new_spanned(tokens: &DeriveInput, message: &str) -> (r: Error) { unimplemented!() }
+}
+
+//@item ast.rs Context
+impl Default for Context {
+    #[verifier::external_body]
+    fn default() -> (r: Context) { unimplemented!() }
+}
+
+// what the (unreachable for the verifier: syn ParseStream, FnMut closures) front-ends produce: uninterpreted relations
+pub uninterp spec fn parsed_type_attrs(attrs: Seq<Attribute>, out: DataTypeAttrs) -> bool;
+// whether unknown instructions are reported (`allow_unknown` absent): a function of the type-level attributes
+pub uninterp spec fn spec_bark(attrs: Seq<Attribute>) -> bool;
+pub uninterp spec fn parsed_fields(fields: Fields, bark: bool, out: Seq<Field>) -> bool;
+pub uninterp spec fn parsed_variants(variants: Seq<SynVariant>, bark: bool, out: Seq<Variant>) -> bool;
+
+mod attr {
+    use super::*;
+    //@stub attr.rs get_data_type_attrs ::= fn get_data_type_attrs(input: &[Attribute]) -> Result<(DataTypeAttrs, bool)>
+    #[verifier::external_body]
+    pub fn get_data_type_attrs(input: &Vec<Attribute>) -> (r: Result<(DataTypeAttrs, bool)>)
+        ensures r is Ok ==> (parsed_type_attrs(input@, r->Ok_0.0) && r->Ok_0.1 == spec_bark(input@)),
+    { unimplemented!() }
+}
+
+impl Field {
+    //@stub ast.rs Field::multiple_from_syn ::= fn multiple_from_syn(ctx: &mut Context, fields: &'a Fields, bark: bool) -> Result<Vec<Self>>
+    #[verifier::external_body]
+    fn multiple_from_syn(ctx: &mut Context, fields: &Fields, bark: bool) -> (r: Result<Vec<Field>>)
+        ensures r is Ok ==> parsed_fields(*fields, bark, r->Ok_0@),
+    { unimplemented!() }
+}
+impl Variant {
+    //@stub ast.rs Variant::multiple_from_syn ::= fn multiple_from_syn(variants: &'a Punctuated<syn::Variant, Comma>, bark: bool) -> Result<Vec<Self>>
+    #[verifier::external_body]
+    fn multiple_from_syn(variants: &Punctuated<SynVariant, Comma>, bark: bool) -> (r: Result<Vec<Variant>>)
+        ensures r is Ok ==> parsed_variants(variants.pseq(), bark, r->Ok_0@),
+    { unimplemented!() }
+}
+
+// the deriving type's own name, generics and shape are taken from the item the attribute sits on; its instructions and members
+// are what the front-ends parsed
+spec fn struct_of<'a>(node: &'a DeriveInput, data: &'a DataStruct, s: Struct<'a>) -> bool {
+    &&& *s.ident == node.ident
+    &&& *s.generics == node.generics
+    &&& s.named_fields == (data.fields is Named)
+    &&& s.unit == (data.fields is Unit)
+    &&& parsed_type_attrs(node.attrs@, s.attrs)
+    &&& parsed_fields(data.fields, spec_bark(node.attrs@), s.fields@)
+}
+spec fn enum_of<'a>(node: &'a DeriveInput, data: &'a DataEnum, e: Enum<'a>) -> bool {
+    &&& *e.ident == node.ident
+    &&& *e.generics == node.generics
+    &&& parsed_type_attrs(node.attrs@, e.attrs)
+    &&& parsed_variants(data.variants.pseq(), spec_bark(node.attrs@), e.variants@)
+}
+
+//@fn ast.rs Struct::from_syn
+//@props C04,C11
+//@spec
+    ensures
+        r is Ok ==> struct_of(node, data, r->Ok_0), // #own-name-generics-shape-from-the-item
+//@end
+
+//@fn ast.rs Enum::from_syn
+//@props C04,C11
+//@spec
+    ensures r is Ok ==> enum_of(node, data, r->Ok_0), // #own-name-generics-from-the-item
+//@end
+
+// what validation has to establish for the emitters (everything `data_type_impl` requires).  ASSUMED of `validate`
+// (HashMap<String, Span>, format!, generic loops: outside the verifier); TESTED by the C16 ledger.
+spec fn emit_pre<'a>(input: DataType<'a>) -> bool {
+    &&& forall|j: int| 0 <= j < dt_attrs(input).attrs@.len() ==> ((#[trigger] dt_attrs(input).attrs@[j]).fallible ==> dt_attrs(input).attrs@[j].core.err_ty is Some)
+    &&& forall|j: int| #![trigger dt_attrs(input).attrs@[j]] 0 <= j < dt_attrs(input).attrs@.len() ==> (forall|k: Kind, f: bool, ty: TokenStream|
+            appl(dt_attrs(input).attrs@[j].applicable_to, k) && f == dt_attrs(input).attrs@[j].fallible
+            ==> body_pre(#[trigger] mk_ctx(&input, &dt_attrs(input).attrs@[j].core, k, f, &ty)))
+}
+//@stub validate.rs validate ::= fn validate(input: &DataType) -> Result<()>
+#[verifier::external_body]
+fn validate(input: &DataType) -> (r: Result<()>)
+    ensures r is Ok ==> emit_pre(*input),
+{ unimplemented!() }
+
+// all impls of an input, in the fixed order of data_type_impl
+spec fn all_impls<'a>(input: DataType<'a>, r: Toks) -> bool {
+    forall|ty: TokenStream| ty@ == dt_ident(input).toks() ==> r == flat(#[trigger] all_ctxs(&input, &ty).map_values(impl_of(&input)))
+}
+
+//@fn expand.rs derive
+//@props C04,C16
+//@spec
+    ensures
+        // accepted: the item is a struct or an enum, its front-end view passed validation, and the result is exactly its impls
+        r is Ok ==> (match node.data {
+            Data::Struct(data) => exists|s: Struct| struct_of(node, &data, s) && emit_pre(DataType::Struct(&s)) && all_impls(DataType::Struct(&s), r->Ok_0@),
+            Data::Enum(data) => exists|e: Enum| enum_of(node, &data, e) && emit_pre(DataType::Enum(&e)) && all_impls(DataType::Enum(&e), r->Ok_0@),
+            Data::Union(_) => false,
+        }), // #accepted-input-yields-exactly-its-impls
+//@end
+
 } // verus!
